@@ -441,6 +441,8 @@ func newKindSys(c *vCtx, cfg vVecCfg, nids int) *vKindSys {
 		}
 	}
 	s.qa = qa
+	// (a negative threshold is no threshold - for every kind, as for the exact index)
+	thr = append(thr, -thr[1])
 	for _, q := range qa {
 		for _, k := range []int{-1, 1, 2} {
 			for _, t := range thr {
@@ -448,6 +450,9 @@ func newKindSys(c *vCtx, cfg vVecCfg, nids int) *vKindSys {
 				for _, r := range [][]uint32{nil, {b + 1}, {b + 2, b + 9}, {b + 1, b + 1, b + 2}} {
 					for _, p := range probes {
 						for _, ef := range efs {
+							if t < 0 && (r != nil || ef != efs[0]) {
+								continue
+							}
 							s.qs = append(s.qs, vVecQuery{Q: q, K: k, Thr: t, IDs: r, NProb: p, Ef: ef})
 						}
 					}
